@@ -26,7 +26,7 @@ theorem beDec_beEnc (w n : Nat) (h : n < 256 ^ w) : beDec (beEnc w n) = n := by
     simp only [beEnc, beDec, beEnc_length]
     rw [ih _ (Nat.mod_lt _ hpos)]
     have : (UInt8.ofNat (n / 256 ^ w)).toNat = n / 256 ^ w := by
-      simp [UInt8.toNat_ofNat, Nat.mod_eq_of_lt hq]
+      simp [Nat.mod_eq_of_lt hq]
     rw [this]
     exact Nat.div_add_mod' n (256 ^ w)
 end Pox
